@@ -318,6 +318,12 @@ func (w *world) applyEnv() {
 // serve posts one agent package the way a Demon configured for the case's listener does.
 func (w *world) serve(body []byte) (int, []byte) {
 	w.nreq++
+	return w.serveAt(w.nreq, body)
+}
+
+// serveAt is serve for the nreq-th request of the case without touching the world's request
+// counter: what concurrent check-ins (e_test.go) use, each with the number it was given up-front.
+func (w *world) serveAt(nreq int, body []byte) (int, []byte) {
 	rr := httptest.NewRecorder()
 	switch w.cfg.Listener {
 	case "external":
@@ -328,7 +334,7 @@ func (w *world) serve(body []byte) (int, []byte) {
 		extOnce.Request(ctx)
 		return rr.Code, rr.Body.Bytes()
 	case "http-profile":
-		req := httptest.NewRequest(http.MethodPost, profUris[w.nreq%len(profUris)], bytes.NewReader(body))
+		req := httptest.NewRequest(http.MethodPost, profUris[nreq%len(profUris)], bytes.NewReader(body))
 		req.RemoteAddr = "10.9.8.7:40000"
 		req.Header.Set("User-Agent", profUA)
 		req.Header.Set("X-Session", "A: B") // header values compare case-insensitively
